@@ -448,6 +448,36 @@ def c11(s):
                 out.append(("c11-expired-token-forwarded", "expired access token forwarded", {"thread": t.tid}))
             if not holders:
                 out.append(("c11-unstored-token-forwarded", "forwarded token was never stored for the session", {"thread": t.tid}))
+        # "short transient store faults are absorbed by retries": a proxied / forward-auth request whose only disturbances are store
+        # faults in runs of at most two, for a session whose stored record is valid and carries an unexpired token when the request
+        # ends, must be served with that session's token.
+        if t.kind in ("p", "f") and t.faulted and not t.cancelled and t.k is not None and t.done_idx is not None:
+            fl = [f for (_, _, f, _) in t.ops]
+            runs, cur = [], 0
+            for f in fl:
+                if f:
+                    cur += 1
+                else:
+                    if cur:
+                        runs.append(cur)
+                    cur = 0
+            if cur:
+                runs.append(cur)
+            only_store = all(f in (0, 1) for f in fl)
+            e0 = s.snaps[t.spawn_idx][0].get(t.k)
+            e1 = s.snaps[t.done_idx][0].get(t.k)
+            if (only_store and runs and max(runs) <= 2 and e0 is not None and e1 is not None and e0.dek == t.dek and e1.dek == t.dek
+                    and entry_valid(e0, t.spawn_now) and entry_valid(e1, t.done_now) and e1.expire > t.done_now
+                    and (s.cfg.acr in (0, None) or acr_ok(s.cfg.acr, e1.acr))):
+                served = authenticated(t.outcome) or (t.kind == "f" and t.outcome[:2] == [2, 204])
+                if not served and not (t.kind == "p" and s.cfg.sso and not s.cfg.fwd):
+                    faulted_codes = {op[0] for (_, op, f, _) in t.ops if f}
+                    key = "c11-transient-fault-not-absorbed"
+                    if faulted_codes == {4}:
+                        key = "c11-transient-fault-at-lock-acquisition-not-absorbed"   # the lock attempt is the one store operation without a retry wrapper
+                    out.append((key,
+                                "a request disturbed only by a transient store fault (at most two failures in a row) was not served although the session is valid and its stored token unexpired",
+                                {"thread": t.tid, "faulted_operations": [i for i, f in enumerate(fl) if f]}))
         rejected = [op for (_, op, _, _) in t.ops if op[0] == 6 and op[2] == 4]
         if rejected:
             ok = authenticated(t.outcome) or t.outcome[0] == 3 or (t.kind == "f" and t.outcome[:2] == [2, 204])
